@@ -441,3 +441,88 @@ Section RoundTsv.
     exists i1, i2, i3, i4, tl, th, dl, dh, d1, d2, t1, t2. repeat split; try assumption; lia.
   Qed.
 End RoundTsv.
+
+(* ================= C14 end to end: one round towards the target that the correct nodes' caches hold ================= *)
+From DS Require Import Converge ConvergeProofs.
+
+Lemma plugin_observation_exact_votes codec_ok cf seq prev_bytes now cache_att should_retire expected vals fails ro prev :
+  plugin_observation codec_ok cf seq prev_bytes now cache_att should_retire expected vals fails = Ok (Some ro) ->
+  decode_outcome (c_pver cf) prev_bytes = Ok prev -> o_stage prev = Production ->
+  (ro_removes ro, ro_updates ro) = honest_votes codec_ok prev expected /\ ro_att ro = [].
+Proof.
+  unfold plugin_observation. intros H Hd Hst.
+  destruct (seq <? 1); [discriminate|]. destruct (seq =? 1); [discriminate|]. rewrite Hd in H.
+  destruct (now <? 0); [discriminate|].
+  rewrite bool_decide_eq_false_2 in H by (rewrite Hst; discriminate).
+  destruct (verify_defs codec_ok (o_defs prev)); cbn [negb] in H; [|discriminate].
+  replace (c_has_pred cf && bool_decide (o_stage prev = Staging)) with false in H
+    by (rewrite (bool_decide_eq_false_2 (o_stage prev = Staging)) by (rewrite Hst; discriminate); rewrite Bool.andb_false_r; reflexivity).
+  destruct should_retire as [retire| |]; try discriminate.
+  destruct (honest_votes codec_ok prev expected) as [rm up].
+  destruct (bool_decide (o_defs prev = ∅)); [inversion H; subst; split; reflexivity|].
+  destruct fails; [discriminate|]. inversion H; subst. split; reflexivity.
+Qed.
+
+Section Round14.
+  Context (h : Z -> chandef -> list Z) (check : list Z -> option (gmap Z Z)) (codec_ok : chandef -> bool).
+  Context (cf : cfg) (seq : Z) (prev_bytes : list Z).
+  Local Notation tagged := (tagged check codec_ok cf seq prev_bytes).
+  Local Notation lsenders_ok := (lsenders_ok codec_ok cf seq prev_bytes).
+
+  (* every correct node's decoded observation carries exactly the votes honest_votes prescribes for the shared target *)
+  Lemma tagged_correct_honest_ob ss prev target ob : bok prev_bytes -> lsenders_ok ss ->
+    decode_outcome (c_pver cf) prev_bytes = Ok prev -> o_stage prev = Production -> verify_defs codec_ok target = true ->
+    (forall i rms ups vals, In (LCorrect i rms ups vals) ss -> oi_expected i = target) ->
+    In (Some ob, true) (tagged ss) ->
+    honest_ob (rm_votes (o_defs prev) target) (up_votes (o_defs prev) target) ob.
+  Proof.
+    intros Hb Hok Hd Hst Hv Htgt Hin. unfold OutcomeEndToEnd.tagged in Hin. apply elem_of_list_In, elem_of_list_omap in Hin.
+    destruct Hin as (s & Hs & Ht). apply elem_of_list_In in Hs. unfold tagged1 in Ht.
+    destruct s as [i rms ups vals|b]; cbn [lsent l_correct] in Ht; [|cbn [option_map] in Ht; inversion Ht].
+    destruct (observe codec_ok cf seq prev_bytes i) as [[ro|]| |] eqn:Eo; try discriminate. cbn [option_map] in Ht.
+    destruct (Hok i rms ups vals Hs) as (Hwf & Hperm). destruct (Hperm ro Eo) as (Prm & Pup & Pval & Hsm).
+    unfold observe in Eo.
+    destruct (plugin_observation_wf _ _ _ _ _ _ _ _ _ _ _ Eo Hb Hwf) as (Hobs & Hnd & _ & _).
+    destruct (plugin_observation_exact_votes _ _ _ _ _ _ _ _ _ _ _ prev Eo Hd Hst) as [Hvotes _].
+    rewrite (Htgt i rms ups vals Hs) in Hvotes.
+    rewrite (honest_votes_shape codec_ok prev target) in Hvotes by (try exact Hv; rewrite Hst; discriminate).
+    injection Hvotes as Hrm Hup.
+    unfold obs_of_bytes in Ht. rewrite (observation_roundtrip rms ups vals ro Hobs Prm Pup Pval Hsm) in Ht.
+    rewrite has_dup_NoDup in Ht by (apply (Permutation.Permutation_NoDup (Permutation.Permutation_sym Prm)), Hnd).
+    inversion Ht; subst ob. unfold honest_ob. cbn [obs_of_raw ob_removes ob_updates ro_removes ro_updates]. split; [|exact Hup].
+    intros c. rewrite <- Hrm. split; intros Hc; apply elem_of_list_In; apply elem_of_list_In in Hc.
+    - exact (Permutation.Permutation_in _ Prm Hc).
+    - exact (Permutation.Permutation_in _ (Permutation.Permutation_sym Prm) Hc).
+  Qed.
+
+  (* one round: with at most f faulty senders and more than f correct observations accepted, every correct node holding
+     the same valid target, the new channel set is the previous one with exactly the agreed batch of changes applied *)
+  Theorem llo_agreed_round ss prev next target :
+    bok prev_bytes -> lsenders_ok ss -> 1 < seq ->
+    decode_outcome (c_pver cf) prev_bytes = Ok prev -> o_stage prev = Production -> verify_defs codec_ok target = true ->
+    (forall i rms ups vals, In (LCorrect i rms ups vals) ss -> oi_expected i = target) ->
+    (length (List.filter (fun p : option observation * bool => negb (snd p)) (tagged ss)) <= c_f cf)%nat ->
+    (c_f cf < length (List.filter (fun p : observation * bool => snd p) (accept_tagged false (tagged ss))))%nat ->
+    (size (dom (o_defs prev) ∪ dom target) <= chan_cap)%nat ->
+    outcome_step h cf seq prev (map fst (tagged ss)) = Ok next -> o_stage next <> Retired ->
+    forall k, o_defs next !! k =
+      if bool_decide (k ∈ up_list (o_defs prev) target) then target !! k
+      else if bool_decide (k ∈ rm_votes (o_defs prev) target) then None else o_defs prev !! k.
+  Proof.
+    intros Hb Hok Hseq Hd Hst Hv Htgt Hf Hh Hcap Hstep Hnr k.
+    destruct (outcome_step_inv h cf seq prev _ next Hseq Hstep) as (rr & obs & ts & aggs & Ha & _ & _ & _ & Hc).
+    destruct (codec_commit_fields _ _ _ Hc) as (Hstage & _ & Hdefs & _ & _).
+    unfold accept_observations in Ha. apply accept_tagged_spec in Ha. simpl in Ha. subst obs.
+    cbn [o_defs o_stage raw_outcome] in Hdefs, Hstage.
+    rewrite Hdefs.
+    match goal with |- new_defs h _ ?r _ _ !! k = _ => replace r with false end.
+    2:{ symmetry. apply bool_decide_eq_false_2. rewrite <- Hstage. exact Hnr. }
+    apply (agreed_round h (c_f cf) (o_defs prev) target (accept_tagged false (tagged ss))); [|exact Hcap].
+    split; [|split].
+    - apply Forall_forall. intros [ob t] Hin Ht. cbn [fst snd] in *. subst t.
+      apply (tagged_correct_honest_ob ss prev target ob Hb Hok Hd Hst Hv Htgt).
+      exact (accept_tagged_sub false (tagged ss) (ob, true) Hin).
+    - etransitivity; [apply accept_tagged_faulty|exact Hf].
+    - exact Hh.
+  Qed.
+End Round14.
